@@ -5,7 +5,7 @@ package interp
 // Exactly one engine thread runs at a time (baton passing between host goroutines).
 // Sequential mode: a thread runs until it blocks or ends; spawned goroutines run when
 // the current thread blocks, at vh.Sched() and at the end of the harness.
-// Preemptive mode (vh.Preempt(n)): before every synchronisation operation the engine
+// Preemptive mode (vh.Preempt(n)): before every ACQUIRING synchronisation operation the engine
 // may switch to another runnable thread, at most n times per path; the choice is a
 // fork point.  A state where an unfinished thread exists and none can run is a deadlock.
 
@@ -102,7 +102,6 @@ func (i *interpreter) spawn(fn value, args []value, pos token.Pos) {
 		}()
 		call(i, nil, pos, fn, args)
 	}()
-	i.preemptPoint("go")
 }
 
 // abortFromThread ends the whole path from a non-main thread.
@@ -134,7 +133,7 @@ func (i *interpreter) deadlock() {
 			desc += fmt.Sprintf("[%s waits for %s] ", t.name, t.waitFor)
 		}
 	}
-	i.path.tags["deadlock"] = desc
+	i.path.notes = append(i.path.notes, "deadlock: "+desc)
 	i.recordViolation("deadlock", "deadlock: no thread can run: "+desc, nil)
 	a := pathAbort{kind: abortDeadlock, msg: desc}
 	if i.cur != nil && i.cur.id == 0 && i.cur.state != tDone {
@@ -168,7 +167,9 @@ func (i *interpreter) pickNext(not *thread) *thread {
 	if len(cands) == 0 {
 		return nil
 	}
-	if i.path.preemptBound > 0 && len(cands) > 1 {
+	// at a blocking point or a thread exit the next thread is the lowest-numbered
+	// runnable one; with FULLSCHED every runnable thread is a fork alternative
+	if i.path.preemptBound > 0 && len(cands) > 1 && i.cfg.Params["FULLSCHED"] == 1 {
 		return cands[i.choose(len(cands))]
 	}
 	return cands[0]
@@ -310,7 +311,6 @@ func (i *interpreter) mutexUnlock(p *value) {
 	}
 	s.locked = false
 	s.owner = nil
-	i.preemptPoint("Unlock")
 }
 
 func (i *interpreter) wgAdd(p *value, n int64) {
@@ -319,7 +319,6 @@ func (i *interpreter) wgAdd(p *value, n int64) {
 	if s.counter < 0 {
 		panic(targetPanic{iface{t: types.Typ[types.String], v: "sync: negative WaitGroup counter"}})
 	}
-	i.preemptPoint("WaitGroup.Add")
 }
 
 func (i *interpreter) wgWait(p *value) {
@@ -333,7 +332,6 @@ func (i *interpreter) wgWait(p *value) {
 // ---- channels ----
 
 func (i *interpreter) chanSend(c *vchan, v value) {
-	i.preemptPoint("send")
 	if c == nil {
 		i.block("send on nil channel", func() bool { return false })
 	}
@@ -399,7 +397,6 @@ func (i *interpreter) chanClose(c *vchan) {
 		panic(targetPanic{iface{t: types.Typ[types.String], v: "close of closed channel"}})
 	}
 	c.closed = true
-	i.preemptPoint("close")
 }
 
 func (i *interpreter) selectOp(fr *frame, instr *ssa.Select) value {
